@@ -101,9 +101,9 @@ CHECKS = {
                  "router's wrappers for the destination chain. Non-trivial = a pair with an accepted request, a rejected duplicate "
                  "and a rejected future index, >=2 active pairs and a block with several IBTPs; distinct = hash of history."),
         "assumptions": ["all services are ordered (unordered/batch services are out of the statement)",
-                        "delivery to the union pier of a remote BitXHub is covered by the C03 check's inter-hub cases"],
-        "quick": [T("TestC02", 8, 150, steps=35)],
-        "thorough": [T("TestC02", 16, 3000, steps=50, timeout=3000)],
+                        "TestC02InterHub (the inter-hub state machine of the C04 check, proof world): index order and counters for requests to and from a remote BitXHub, accepted outgoing requests listed once for the union pier, incoming ones for the local appchain, rejected IBTPs nowhere"],
+        "quick": [T("TestC02", 8, 150, steps=35), T("TestC02InterHub", 8, 60, steps=30)],
+        "thorough": [T("TestC02", 16, 3000, steps=50, timeout=3000), T("TestC02InterHub", 16, 800, steps=40, timeout=3000)],
     },
     "C05": {
         "level": "exploration",
